@@ -84,7 +84,8 @@ func (s *state) clone() *state {
 // whole pattern "*" is used.
 type ruleSelector struct {
 	path  map[string]*ruleSelector
-	rules []*annotations.HttpRule
+	rules []*annotations.HttpRule // wildcard rules, apply to every name below
+	exact []*annotations.HttpRule // rules for exactly this name
 }
 
 func (r *ruleSelector) write(w io.Writer, indent string) {
@@ -92,7 +93,7 @@ func (r *ruleSelector) write(w io.Writer, indent string) {
 		fmt.Fprintf(w, "%s%s: \n", indent, key)
 		rs.write(w, indent+"  ")
 	}
-	fmt.Fprintf(w, "%srules: %v\n", indent, r.rules)
+	fmt.Fprintf(w, "%srules: %v\n", indent, append(r.rules[:len(r.rules):len(r.rules)], r.exact...))
 }
 
 // String returns the string representation of the ruleSelector.
@@ -105,7 +106,7 @@ func (r *ruleSelector) String() string {
 func (r *ruleSelector) getRules(name string) (rules []*annotations.HttpRule) {
 	rules = append(rules, r.rules...)
 	if name == "" {
-		return rules
+		return append(rules, r.exact...)
 	}
 	tag, name, _ := strings.Cut(name, ".")
 	if r = r.path[tag]; r != nil {
@@ -128,7 +129,7 @@ func (r *ruleSelector) setRules(rules []*annotations.HttpRule) {
 				}
 				r.rules = append(r.rules, rule)
 			case "":
-				r.rules = append(r.rules, rule)
+				r.exact = append(r.exact, rule)
 			default:
 				rs := r.path[tag]
 				if rs == nil {
